@@ -182,7 +182,8 @@ def call_contract(ex, c, bound, st, n):
     pre.locals = dict(callee.locals)
     pre.heap = dict(st.heap)
     items = [ex._mod_item(m, pre, pre, None) for m in c.modifies]
-    havoc_for_call(ex, st, pre, items)
+    ctor_ghost = set(t.attr for t, _ in c.ghost_updates if isinstance(t, ast.Attribute))
+    havoc_for_call(ex, st, pre, items, ctor_ghost)
     post = State()
     post.locals = dict(callee.locals)
     post.heap = st.heap
@@ -217,9 +218,10 @@ def call_contract(ex, c, bound, st, n):
 
 
 LIST_SORTS = [CELL, INT, STR]
+IMMUTABLE_GHOST = ('level', 'sorted_iface')
 
 
-def havoc_for_call(ex, st, pre, items):
+def havoc_for_call(ex, st, pre, items, ctor_ghost=()):
     alloc_old = ex.alloc_term(st)
     a = fresh('alloc', INT)
     st.heap['$alloc'] = a
@@ -238,6 +240,8 @@ def havoc_for_call(ex, st, pre, items):
             pt = v.pt.args[0] if v.pt.kind == 'opt' else v.pt
             if pt.kind == 'obj':
                 for root, f, fpt in ex.reg.all_fields_of_family(pt.args[0]):
+                    if f in IMMUTABLE_GHOST and f not in ctor_ghost:
+                        continue
                     name = 'F:%s.%s' % (root, f)
                     arr = ex.harr(st, name, ArrS(INT, sort_of(fpt)))
                     st.heap[name] = Store(arr, v.t, fresh('hf_' + f, sort_of(fpt)))
@@ -265,7 +269,7 @@ def havoc_for_call(ex, st, pre, items):
                 if ex._family(cname) != 'writer':
                     continue
                 for f, fpt in list(ci.fields.items()) + list(ci.ghost.items()):
-                    if f == 'level':
+                    if f in IMMUTABLE_GHOST:
                         continue
                     name = 'F:%s.%s' % (cname, f)
                     arr = ex.harr(st, name, ArrS(INT, sort_of(fpt)))
@@ -279,6 +283,7 @@ def havoc_for_call(ex, st, pre, items):
             st.pc.append(smt.ForAll([r], Implies(And(Select(wo2, r), Not(Select(wo, r))),
                                                  Or(Ge(r, alloc_old), *[Eq(r, e) for e in explicit]))))
             st.heap['$wowned'] = wo2
+            ex.assume_ghost_sets_wf(st)
             names = set(k for k in st.heap if k.startswith('L:'))
             for s in LIST_SORTS:
                 names.add('L:' + s)
